@@ -164,11 +164,21 @@ def rng_array(shape, dtype, rng):
     return base.astype(dtype)
 
 
-def round_trip(typ, axis_kinds, dtype, lazy, zipped, metadata, rng, scratch):
+def nest(t, inner, k):
+    """a value tree of depth 2: the k-th child of the container tree t replaced by the container tree inner"""
+    if t[0] not in ("tuple", "list", "dict") or not t[1]:
+        return t
+    i = k % len(t[1])
+    kids = list(t[1])
+    kids[i] = [kids[i][0], inner] if t[0] == "dict" else inner
+    return [t[0], kids]
+
+
+def round_trip(typ, axis_kinds, dtype, lazy, zipped, metadata, rng, scratch, resave=False):
     import abtem
     it = Intern()
     ev = {"typ": typ, "axis_kinds": list(axis_kinds), "dtype_in": str(np.dtype(dtype)), "lazy": lazy, "zip": zipped, "raised": False,
-          "array_equal": False, "before": {"type": "", "dtype": "", "shape": [], "axes": [], "metadata": ["none"]},
+          "array_equal": False, "resaved_equal": True, "before": {"type": "", "dtype": "", "shape": [], "axes": [], "metadata": ["none"]},
           "after": {"type": "", "dtype": "", "shape": [], "axes": [], "metadata": ["none"]}}
     path = os.path.join(scratch, f"o{rng.randrange(10**9)}" + (".zip" if zipped else ".zarr"))
     try:
@@ -182,6 +192,14 @@ def round_trip(typ, axis_kinds, dtype, lazy, zipped, metadata, rng, scratch):
         a0 = np.asarray(obj.compute().array) if lazy else np.asarray(obj.array)
         a1 = np.asarray(back.compute().array)
         ev["array_equal"] = bool(a0.shape == a1.shape and np.array_equal(a0, a1))
+        # stores have histories: what was loaded (lazily - it still reads from the store) is written back to the SAME place with
+        # overwrite=True and loaded again: same object, same values
+        if resave:
+            loaded = abtem.from_zarr(path)          # not computed: its graph reads from the store it is about to replace
+            loaded.to_zarr(path, overwrite=True)
+            again = abtem.from_zarr(path)
+            a2 = np.asarray(again.compute().array)
+            ev["resaved_equal"] = bool(project(again, it) == ev["after"] and a2.shape == a0.shape and np.array_equal(a0, a2))
     except Exception as ex:
         ev["raised"] = True
         ev["exc"] = f"{type(ex).__name__}: {ex}"[:300]
@@ -200,7 +218,7 @@ def list_round_trip(typs, axis_kinds, dtype, lazy, zipped, metadata, rng, scratc
     from abtem.array import ComputableList
     it = Intern()
     path = os.path.join(scratch, f"l{rng.randrange(10**9)}" + (".zip" if zipped else ".zarr"))
-    evs = [{"typ": t, "axis_kinds": list(axis_kinds), "dtype_in": str(np.dtype(dtype)), "lazy": lazy, "zip": zipped, "raised": False, "array_equal": False,
+    evs = [{"typ": t, "axis_kinds": list(axis_kinds), "dtype_in": str(np.dtype(dtype)), "lazy": lazy, "zip": zipped, "raised": False, "array_equal": False, "resaved_equal": True,
             "list_index": i, "before": {"type": "", "dtype": "", "shape": [], "axes": [], "metadata": ["none"]},
             "after": {"type": "", "dtype": "", "shape": [], "axes": [], "metadata": ["none"]}} for i, t in enumerate(typs)]
     try:
@@ -251,7 +269,7 @@ def self_test(ctx: Ctx):
     tree2 = ["dict", [["a", ["tuple", [["npnum", 1], ["num", 2]]]], ["b", ["list", [["str", 1]]]]]]
     tree3 = ["dict", [["a", ["list", [["num", 1], ["num", 2]]]], ["b", ["list", [["str", 1]]]]]]
     side = {"type": "Images", "dtype": "float32", "shape": [2, 3], "axes": [["dict", [["label", ["str", 1]]]]], "metadata": tree}
-    good = {"raised": False, "array_equal": True, "before": side, "after": dict(side, metadata=tree2)}
+    good = {"raised": False, "array_equal": True, "resaved_equal": True, "before": side, "after": dict(side, metadata=tree2)}
     c1 = dict(good, after=dict(side, metadata=tree3))          # tuple came back as list
     c2 = dict(good, after=dict(side, dtype="float64"))
     c3 = dict(good, array_equal=False)
@@ -282,6 +300,9 @@ def run(ctx: Ctx):
         n = 160 if quick else 3000
         for j in range(n):
             t = trees[j % len(trees)]
+            if j % 3 == 1:
+                # depth 2 (the codec is checked by TLC to depth 2): a container inside a container, after leading scalars too
+                t = nest(t, trees[(7 * j + 3) % len(trees)], j // 3)
             typ = OBJ_TYPES[j % len(OBJ_TYPES)]
             naxes = rng.choice([0, 1, 1, 2])
             kinds = tuple(rng.choice(AXIS_KINDS) for _ in range(naxes))
@@ -292,7 +313,7 @@ def run(ctx: Ctx):
             else:
                 dtype = rng.choice([np.float32, np.float64, np.float32, np.int32 if typ == "Images" else np.float64])
             md = {"vf": from_model(t), "label": "intensity", "units": "arb. unit", "f32": np.float32(0.1), "n": 3}
-            ev = round_trip(typ, kinds, dtype, lazy=(j % 2 == 0), zipped=(j % 3 == 0), metadata=md, rng=rng, scratch=scratch)
+            ev = round_trip(typ, kinds, dtype, lazy=(j % 2 == 0), zipped=(j % 3 == 0), metadata=md, rng=rng, scratch=scratch, resave=(j % 4 == 0))
             ev["metadata_repr"] = repr(md["vf"])[:300]
             evs.append(ev)
             ctx.case((typ, kinds, str(np.dtype(dtype)), j % 2, j % 3 == 0, json.dumps(t)), nontrivial=naxes > 0 or t[0] in ("tuple", "list", "dict"))
